@@ -419,22 +419,24 @@ class SetOrder(Obligation):
     alphabet = VARS
     timeout_ms = 30000
 
-    def __init__(self, kind, n, mode):
+    def __init__(self, kind, n, mode, lens=None):
         self.kind, self.n, self.mode = kind, n, mode
-        self.name = "set_order/%s/n=%d/%s" % (kind, n, mode)
+        self.lens = tuple(lens) if lens else (1,) * n
+        self.name = "set_order/%s/n=%d/%s" % (kind, n, mode) + ("/lens=%s" % "x".join(map(str, self.lens)) if lens else "")
         self.functions = {"path_params": ["pyopenapi_gen.visit.endpoint.processors.parameter_processor:EndpointParameterProcessor._ensure_path_variables_as_params",
                                           "pyopenapi_gen.helpers.url_utils:extract_url_variables"],
                           "op_tags": ["pyopenapi_gen.core.loader.operations.parser:parse_operations"],
                           "endpoint_text": ["pyopenapi_gen.emitters.endpoints_emitter:EndpointsEmitter.emit", "pyopenapi_gen.visit.endpoint.endpoint_visitor:EndpointVisitor.emit_endpoint_client_class",
                                             "pyopenapi_gen.visit.endpoint.processors.parameter_processor:EndpointParameterProcessor.process_parameters"]}[kind]
-        self.bounds = {"names": "%d symbolic one-character names over 'abAB_1', pairwise distinct" % n,
+        self.bounds = {"names": "%d symbolic names of lengths %r over 'abAB_1', pairwise distinct (one may be a prefix of another)" % (n, list(self.lens)),
                        "set iteration order": "all iterations reversed (one solver-chosen bit)" if mode == "reverse" else "each of the first 4 multi-element set iterations reversed or not (solver-chosen bits)"}
 
     def make_inputs(self, e):
-        inp = {"v%d" % i: mk_sym_str(1, "v%d" % i, VARS) for i in range(self.n)}
+        inp = {"v%d" % i: mk_sym_str(self.lens[i], "v%d" % i, VARS) for i in range(self.n)}
         for i in range(self.n):
             for j in range(i + 1, self.n):
-                e.assume(inp["v%d" % i].lower() != inp["v%d" % j].lower())
+                if self.lens[i] == self.lens[j]:
+                    e.assume(inp["v%d" % i].lower() != inp["v%d" % j].lower())
         inp["bits"] = [bool(e.choose(2, "rev%d" % k)) for k in range(1 if self.mode == "reverse" else 4)]
         return inp
 
@@ -497,7 +499,7 @@ class SetOrder(Obligation):
             [_simp(inp["v%d" % i]) for i in range(self.n)], " vs ".join(sorted(set(str(n(o))[:200] for o in r))))
 
 
-SEEDS = [0, 1, 2, 3, 4, 5]
+SEEDS = list(range(12))
 _SERVERS = {}
 
 
@@ -583,8 +585,8 @@ def seed_server():
         sys.stdout.flush()
 
 
-def mk_set_order(kind, n, mode):
-    return SetOrder(kind, n, mode)
+def mk_set_order(kind, n, mode, lens=None):
+    return SetOrder(kind, n, mode, lens)
 
 
 # ------------------------------------------------------------------ K7: id()-derived names never reach a result
@@ -703,6 +705,11 @@ def specs(tier):
         out.append((MOD, "mk_set_order", (kind, 2, "reverse")))
         out.append((MOD, "mk_set_order", (kind, 3, "reverse" if q else "bits")))
     out.append((MOD, "mk_set_order", ("endpoint_text", 2, "reverse" if q else "bits")))
+    # names one of which may be a prefix of the other, the longer placeholder first (`/{ab}/{a}`)
+    out.append((MOD, "mk_set_order", ("path_params", 2, "reverse", (2, 1))))
+    if not q:
+        out.append((MOD, "mk_set_order", ("path_params", 3, "bits", (2, 1, 2))))
+        out.append((MOD, "mk_set_order", ("endpoint_text", 2, "bits", (2, 1))))
     # "when the existing output differs from what would be generated now, the non-force run fails": the generate()
     # histories of props/c10.py (tampered trees, prefix-named sibling cores)
     from props import c10
